@@ -50,7 +50,7 @@ type Round struct {
 
 // Call the function with the arguments provided.
 func (f *Round) Call(s *slip.Scope, args slip.List, depth int) slip.Object {
-	return round(s, f, args, depth)
+	return reduceValues(round(s, f, args, depth))
 }
 
 func round(s *slip.Scope, f slip.Object, args slip.List, depth int) slip.Values {
